@@ -58,6 +58,9 @@ def dt_cases(tier):
     out.append((('and', ('once', (0, 2), px), ('prev', ('once', (0, 2), px))), False, ('p = once[0,2] (x >= 0);',), 'out = p and (prev p)'))
     out.append((('since', (1, 2), ('historically', (0, 1), px), py), False, ('p = historically[0,1] (x >= 0);',), 'out = p since[1,2] (y <= 1)'))
     out.append((('or', ('rise', px), ('eventually', (0, 1), ('rise', px))), True, ('p = rise(x >= 0);',), 'out = p or eventually[0,1] p'))
+    ev = ('eventually', (0, 1), px)
+    out.append((('or', ev, ('next', ev)), True, ('p = eventually[0,1] (x >= 0);',), 'out = p or (next p)'))
+    out.append((('and', ('always', (0, 1), ('or', ev, py)), ev), True, ('p = eventually[0,1] (x >= 0);', 'q = p or (y <= 1);'), 'out = (always[0,1] q) and p'))
     return out
 
 
